@@ -68,7 +68,7 @@ def roundToDouble (n : Nat) : Option Nat :=
     let half := 2 ^ (e - 1)
     let q' := if r > half ∨ (r = half ∧ q % 2 = 1) then q + 1 else q
     let v := q' * 2 ^ e
-    if v ≥ 2 ^ 1024 then none else some v
+    if Nat.log2 v ≥ 1024 then none else some v      -- v ≥ 2^1024: the double is `inf`
 
 inductive NumErr | value | overflow
 deriving DecidableEq, Repr
